@@ -61,7 +61,7 @@ fn c01_roundtrip() {
     }
     // block-size matrix per codec: one entry far larger than a block (above 16 MiB), one above 64 KiB, small ones around them
     for (ci, ct) in codecs().into_iter().enumerate() {
-        let big_len = 17 * 1024 * 1024 + 3 + ci;
+        let big_len = if profile_dev() { 300_000 + ci } else { 17 * 1024 * 1024 + 3 + ci }; // the dev-profile build is slow: it checks assertions / overflow, not sizes
         let big: Vec<u8> = (0..big_len).map(|i| ((i * 31 + i / 977) % 251) as u8).collect();
         let mid: Vec<u8> = (0..70_000 + ci).map(|i| (i % 7) as u8).collect();
         let es: Entries = vec![(vec![], b"first".to_vec()), (b"a".to_vec(), mid), (b"big".to_vec(), big), (b"c".to_vec(), vec![]), (b"d".to_vec(), vec![7u8; 300])];
